@@ -22,7 +22,7 @@ import lspclient
 
 # One-line switch to the extracted judge: once `run_codec` is reachable from Judge.Run.run under command
 # numbers 1+K, 2+K, 3+K, set EXTRACTED_OFFSET = K (the kernel judge is then only used on a sample).
-EXTRACTED_OFFSET = None
+EXTRACTED_OFFSET = 10
 
 COQ_FILES = ["theories/Model/Codec.v", "theories/Proofs/CodecProofs.v", "theories/Props/C19.v",
              "theories/Judge/RunCodec.v"]
